@@ -540,15 +540,21 @@ def _canon(method, res, root):
     if method == 'complete':
         return [[c.name, c.type, c.complete, c.get_completion_prefix_length()] for c in res]
     if method == 'get_signatures':
-        return [[s.name, s.index, list(s.bracket_start), s.to_string(), _rel(s.module_path, root), s.line, s.column]
-                for s in res]
+        # the order of several signatures is the iteration order of a ValueSet (identity hashes)
+        return sorted(([s.name, s.index, list(s.bracket_start), s.to_string(), _rel(s.module_path, root), s.line,
+                        s.column] for s in res), key=json.dumps)
     if method == 'get_context':
         return _name(res, root, full=False) if res is not None else None
     if method == 'complete_search':
         return [[n.name, n.type] for n in res]
     if method in ('get_names', 'search', 'get_references'):
         return [[_name(n, root, full=False), _guard(n.is_definition)] for n in res]
-    return [_name(n, root) for n in res]
+    out = [_name(n, root) for n in res]
+    if method in ('goto', 'help'):
+        # goto returns list(set(...)): the order is the iteration order of a set of objects hashed
+        # by identity (C16's subject, not C08's) - compare as a set
+        out.sort(key=json.dumps)
+    return out
 
 
 def _dump(node):
@@ -772,8 +778,26 @@ def forked_call(fn, arg, timeout=900):
         return ['err', 'child died without a result', '']
 
 
+_WARM = []
+
+
+def _prewarm():
+    """Text-independent start-up work done once in the process that forks the children: parso's
+    grammar tables (a cache keyed by the grammar version; ~1/3 of the cost of a cold child).  Nothing
+    here ever sees a buffer; the fresh-sub stream checks the short-cut against real new interpreters."""
+    if not _WARM:
+        _WARM.append(1)
+        try:
+            import parso
+            for v in ('%d.%d' % sys.version_info[:2], '3.13'):
+                parso.load_grammar(version=v)
+        except Exception:
+            pass
+
+
 def _work(item):
     """pmap worker entry.  The worker itself never creates a Script; every job runs in its own child."""
+    _prewarm()
     kind, arg = item
     fn = {'session': session_child, 'fresh': fresh_child, 'trace': trace_child}[kind]
     return forked_call(fn, arg)
@@ -810,6 +834,8 @@ def shrink_session(ctx, sess, root, step_i, key, fresh_val, budget=40):
     """Delete steps (then queries) while the last step still differs from the fresh answer on `key`."""
     cur = dict(sess, steps=[dict(s) for s in sess['steps'][:step_i + 1]])
 
+    _prewarm()
+
     def fails(cand):
         r = forked_call(session_child, (cand, root, None), timeout=1200)
         if r[0] != 'ok':
@@ -839,6 +865,14 @@ def shrink_session(ctx, sess, root, step_i, key, fresh_val, budget=40):
         if fails(cand):
             cur = cand
     return cur, None
+
+
+def _scaled(n):
+    """development aid: VERIF_C08_SCALE=0.2 runs a fifth of the sessions"""
+    try:
+        return max(1, int(n * float(os.environ.get('VERIF_C08_SCALE', '1'))))
+    except ValueError:
+        return n
 
 
 def classify_known(sess, step_results, i, key, hv, fv):
@@ -872,7 +906,7 @@ def classify_known(sess, step_results, i, key, hv, fv):
 def stream_history(ctx):
     corpus = _corpus_chunks()
     ctx.stat('corpus_chunks', len(corpus))
-    nsess = ctx.n(44, 400)
+    nsess = _scaled(ctx.n(36, 400))
     sessions = [gen_session(ctx.rng, i, corpus) for i in range(nsess)]
     # a few fixed, directed sessions first (seed independent): the classic stale-cache makers
     sessions = directed_sessions() + sessions
@@ -1296,7 +1330,7 @@ MODEL_CFGS = {
 
 def stream_trace(ctx):
     corpus = _corpus_chunks()
-    n = ctx.n(20, 160)
+    n = _scaled(ctx.n(20, 160))
     sessions = [gen_trace_session(ctx.rng, i, corpus) for i in range(n)]
     items = []
     for i, (s, tracked) in enumerate(sessions):
@@ -1385,10 +1419,14 @@ def run(ctx):
         'brand-new interpreter',
         'the signature time cache is modelled with the key comparison of the code (identity: never hits); the intended '
         'textual key is a model variant (Props: C08_history_dependent_if_textual_sig_key)']
+    import resource
     for f in (stream_history, stream_trace):
         t = time.time()
+        c0 = resource.getrusage(resource.RUSAGE_CHILDREN)
         f(ctx)
+        c1 = resource.getrusage(resource.RUSAGE_CHILDREN)
         ctx.stat('wall_' + f.__name__, round(time.time() - t, 1))
+        ctx.stat('cpu_children_' + f.__name__, round(c1.ru_utime + c1.ru_stime - c0.ru_utime - c0.ru_stime, 1))
 
 
 def replay(ctx, path):
